@@ -245,6 +245,8 @@ func alphabets(thorough bool) [nDims]alphabet {
 		"other/ns/default/sa/default", // unrelated (second literal of the two-valued lists)
 		"cluster.local/ns/foo/sa/bar", // the default trust domain name
 		"td1/ns/bar/sa/foo",           // namespace and service account swapped
+		"foo/ns/bar/sa/foo",           // trust domain and service account named like the namespace literal
+		"bar/ns/td1/sa/td1",           // namespace and service account named like the trust domain literal
 	}
 	if thorough {
 		peers = append(peers,
@@ -308,6 +310,7 @@ func alphabets(thorough bool) [nDims]alphabet {
 	addJ("xiss", jwtWith("iss", "xhttps://iss.example.com"))
 	addJ("iss-other", jwtWith("iss", "https://iss.other.org"))
 	addJ("iss-plain", jwtWith("iss", "issuer-a"))
+	addJ("iss-with-path", jwtWith("iss", "https://iss.example.com/tenant-1"))
 	addJ("aud-string", jwtWith("aud", "aud-a"))
 	addJ("aud+1", jwtWith("aud", []any{"aud-ax", "aud-b"}))
 	addJ("xaud", jwtWith("aud", []any{"xaud-a"}))
